@@ -161,6 +161,7 @@ type Engine struct {
 	workLimit    int64 // vWorkBegin: step count at which the section has used more work than allowed
 	workMsg      string
 	sectionStart int64   // step count at the last vMustNotBlock
+	sectionForks int     // decisions taken since the last vMustNotBlock
 	goQueue      []FuncV // goroutines queued by vQueueGo: run when the harness goroutine blocks
 	inGoroutine  int
 	guards       map[*Cell]guardInfo // lockset discipline declared by vGuardedBy
@@ -548,6 +549,15 @@ func (e *Engine) query(extra *Term, wantModel []*Term) (Result, map[*Term]uint64
 func (e *Engine) choose(conds []*Term, loopKey *ssa.BasicBlock) int {
 	if e.noFork > 0 {
 		panic(mergeAbort{"fork inside merge"})
+	}
+	if e.noBlockMsg != "" && e.inGoroutine == 0 {
+		e.sectionForks++
+		if e.sectionForks > 256 {
+			// no terminating run of the short calls made in a must-not-block section takes this
+			// many decisions: a loop that makes no progress forks at every round
+			e.sectionForks = 0
+			e.unwindFail("more than 256 decisions inside a must-not-block section")
+		}
 	}
 	if e.dpos < len(e.prefix) {
 		d := e.prefix[e.dpos]
